@@ -137,7 +137,7 @@ def _job(job) -> List[Dict[str, Any]]:
     for ev in I.events:
         if ev.kind == "write" and ev.data["field"] in ("id", "name") and ev.data.get("cls") is roles.rating:
             m, fn, ln = where(ev)
-            if fn in (f"{roles.rating.name}.__init__", f"{roles.rating.name}.__deepcopy__"):
+            if fn in {f"{c.name}.{meth}" for c in roles.rating.mro for meth in ("__init__", "__deepcopy__")}:  # constructor / copy, possibly inherited
                 continue
             wrote_id = True
             inst("R2.4", "VIOLATED", norm_text(ev.node, 100), f"rate overwrites the {ev.data['field']} of a rating object", {}, m, fn, ln)
